@@ -2,6 +2,7 @@
 \* (FeaSem!Univ: 12 ss, 4 ms, 7 ls, 16 cs, 6 sp, 10 pp), lookupflag in {none, IgnoreMarks}, 3 wrappings
 \* (anonymous in a feature / named block in a feature / standalone block + reference).  One state per
 \* candidate (rule pairs that may not share a lookup are not generated).  Glyphs a b c d m(mark).
+CONSTANTS Stride = 1 Offset = 0
 INIT InitA
 NEXT NextNone
 INVARIANT EmitCase
